@@ -253,7 +253,9 @@ func servingGoroutines() (int, string) {
 	which := ""
 	for _, g := range strings.Split(string(buf[:n]), "\n\n") {
 		if strings.Contains(g, "lime-go.(*Server).handleChannel") || strings.Contains(g, "lime-go.receiveFromTransport") ||
-			strings.Contains(g, "lime-go.(*ServerChannel).EstablishSession") {
+			strings.Contains(g, "lime-go.(*ServerChannel).EstablishSession") ||
+			// ... and whatever is still inside the transport of the (one) connection of the case
+			strings.Contains(g, "lime-go.(*ctxConn).") || strings.Contains(g, "lime-go.(*tcpTransport).") {
 			cnt++
 			if which == "" {
 				which = truncate(g, 700)
@@ -541,6 +543,30 @@ func judgeC14(c *SrvCase, obs *SrvObs, o *Outcome) {
 	m := RunServerModel(c, observedNegotiation(obs))
 	classifySrvCase(c, m, o)
 	o.Class("end=" + c.End)
+	if c.Cfg.CutInAuth {
+		for _, e := range obs.Log {
+			if e.Call != "auth" {
+				continue
+			}
+			// the peer's connection was reset while the server was busy with its credentials: whatever the callback answers,
+			// the reply cannot be written, nothing is established, and the connection and its goroutines are released
+			cause := "peer-reset-during-authentication"
+			o.Class("cause=" + cause)
+			o.NonTrivial = true
+			if !obs.ServerClosed {
+				o.Fail("C14/not-closed/"+cause, "the peer was reset while Authenticate ran, and the server did not close its side of the connection within the bound")
+			}
+			if obs.Serving > 0 {
+				o.Fail("C14/goroutine-left/"+cause, "%d goroutine(s) still serving the connection after the bound: %s", obs.Serving, obs.ServingStack)
+			}
+			for _, e := range obs.Log {
+				if e.Call == "established" || e.Call == "finished" {
+					o.Fail("C14/callback-on-failed-handshake/"+e.Call, "the %s callback fired for a handshake that failed (%s)", e.Call, cause)
+				}
+			}
+			return
+		}
+	}
 	// A handshake has failed when the model ends failed/aborted, or when the peer vanished while the server was waiting.
 	// A peer that merely stays silent has not failed (a Server imposes no handshake timeout of its own).
 	failing := m.Status == "failed" || m.Status == "aborted" || (m.Status == "pending" && (c.End == "eof" || c.End == "cut" || c.End == "close-now"))
